@@ -459,11 +459,11 @@ func c15SerializerReuse(w *W) {
 	for i, t := range ts {
 		if t.corrupt {
 			corrupt = i
-		} else if !t.big && len(small) < 5 {
+		} else if !t.big && !t.aux && (len(small) < 5 || strings.HasPrefix(t.name, "collide-")) {
 			small = append(small, i)
 		}
 	}
-	w.Note("Serializer reuse: Mode(m1); Serialize(a); [Serialize(tape with unknown tag: panics)]; Mode(m2); Serialize(b); Deserialize(last blob, reused destination) for 5 small tapes a, b and all mode pairs")
+	w.Note("Serializer reuse: Mode(m1); Serialize(a); [Serialize(tape with unknown tag: panics)]; Mode(m2); Serialize(b); Deserialize(last blob, reused destination) for 8 small tapes a, b (incl. three whose strings collide in the dedup table) and all mode pairs")
 	for m1 := 0; m1 < 4; m1++ {
 		for m2 := 0; m2 < 4; m2++ {
 			for _, a := range small {
